@@ -220,35 +220,47 @@ inductive YEnv
   | map (kvs : List (Key × Option Str))   -- `k: null` = without value
 deriving Repr, DecidableEq
 
+/-- Normalize's `resolve` on one element of the sequence form (`keepEmpty = true`) -/
+def normalizeItem (penv : List (Key × Str)) : Item → Item
+  | .kv k v => .kv k v
+  | .bare k => match lookup k penv with
+    | some val => .kv k val
+    | none => .bare k
+
+/-- Normalize's `resolve` on one entry of the mapping form (`keepEmpty = true`) -/
+def normalizePair (penv : List (Key × Str)) (kv : Key × Option Str) : Key × Option Str :=
+  match kv.2 with
+  | some v => (kv.1, some v)
+  | none => (kv.1, lookup kv.1 penv)
+
 /-- Normalize's `resolve(e, fn, keepEmpty = true)` on `environment` -/
 def normalizeEnv (penv : List (Key × Str)) : YEnv → YEnv
   | .absent => .absent
-  | .list items => .list (items.map fun it => match it with
-      | .kv k v => .kv k v
-      | .bare k => match lookup k penv with
-        | some val => .kv k val
-        | none => .bare k)
-  | .map kvs => .map (kvs.map fun kv => match kv.2 with
-      | some v => (kv.1, some v)
-      | none => (kv.1, lookup kv.1 penv))
+  | .list items => .list (items.map (normalizeItem penv))
+  | .map kvs => .map (kvs.map (normalizePair penv))
 
-/-- `resolveServicesEnvironment`: only the sequence form; the *whole* element text is looked up -/
+/-- `resolveServicesEnvironment` on one element: the *whole* element text is looked up -/
+def resolveSeqItem (penv : List (Key × Str)) (it : Item) : Item :=
+  match lookup it.text penv with
+  | some found => match it with
+    | .kv k v => .kv k (v ++ '=' :: found)
+    | .bare k => .kv k found
+  | none => it
+
+/-- `resolveServicesEnvironment`: only the sequence form -/
 def resolveSeqEnv (penv : List (Key × Str)) : YEnv → YEnv
-  | .list items => .list (items.map fun it =>
-      match lookup it.text penv with
-      | some found => match it with
-        | .kv k v => .kv k (v ++ '=' :: found)
-        | .bare k => .kv k found
-      | none => it)
+  | .list items => .list (items.map (resolveSeqItem penv))
   | y => y
 
-/-- `MappingWithEquals.DecodeMapstructure` -/
+def Item.pair : Item → Key × Option Str
+  | .kv k v => (k, some v)
+  | .bare k => (k, none)
+
+/-- `MappingWithEquals.DecodeMapstructure`: `mapping[k] = …` for every element / entry in order -/
 def decodeEnv : YEnv → List (Key × Option Str)
   | .absent => []
-  | .list items => items.foldl (fun acc it => match it with
-      | .kv k v => insert k (some v) acc
-      | .bare k => insert k none acc) []
-  | .map kvs => kvs.foldl (fun acc kv => insert kv.1 kv.2 acc) []
+  | .list items => overrideBy [] (items.map Item.pair)
+  | .map kvs => overrideBy [] kvs
 
 structure LoadCfg where
   skipNormalization : Bool
